@@ -1,4 +1,5 @@
 import WfModel.Lemmas.Atoms.Example
+import WfModel.Lemmas.Atoms.Extra
 import WfModel.Model.Json
 
 /-!
@@ -7,29 +8,49 @@ import WfModel.Model.Json
 `parse_render_logical` (`Props/C07Render.lean`) is stated over abstract atoms assumed to satisfy
 `GoodAtom`. Here `GoodAtom` is PROVED for a syntax of concrete atoms (`CAtom`,
 `Lemmas/Atoms.lean`), so that "render a filter, parse it, get exactly the intended AST" holds end
-to end — logical operators, comparison operators, aliases, layout AND literals:
+to end — logical operators, comparison operators, aliases, layout, literals, index suffixes,
+integer sets and `contains`:
 
-* `CAtom.boolField name` — a bare `Bool` field;
-* `CAtom.cmp name ws₁ op sym ws₂ lit` — `name ws₁ op ws₂ lit` with `op` any of the six ordering
-  operators, spelled as a word (`sym = false`: `eq ne ge le gt lt`) or a symbol (`sym = true`:
-  `== != >= <= > <`), `ws₁`/`ws₂` any layout (`SPACE_CHARS`), and `lit : Lit` one of: integer in
-  decimal / `0x` hexadecimal / `0` octal (`renderInt`), quoted byte string with any escape choice
-  per byte (`renderQuoted` of C06), raw string `r#"…"#`, IPv4 dotted quad, IPv6 in full form or in
-  the form std's `Display` prints (`::` compression). Abbreviations `CAtom.intCmp`, `bytesCmp`,
-  `rawCmp`, `ipCmp`, `ip6Cmp`.
-* `CAtom.txt` = name ++ ws₁ ++ spelling ++ ws₂ ++ literal; `CAtom.node s` = the intended node
-  `.comparison (.field i []) (.ordering op value)` with `i` the index of `name` in the scheme;
+A concrete atom is `name path tail` (`CAtom`, a structure):
+
+* `path : List Ix` — index suffixes as WRITTEN, possibly none: `Ix.arr ws₁ k ws₂ form` is
+  `[ws₁ k ws₂]` with `k < 2^32` in decimal / `0x` hex / `0` octal (`FieldIndex::lex` goes through
+  the integer lexer), `Ix.key ws₁ items ws₂` is `[ws₁ "…" ws₂]` with the quoted-string rendering
+  of C06 (any escape per byte; the bytes must be UTF-8), `Ix.plainKey ws₁ key ws₂` the escape-free
+  special case `["key"]` (`plain_key_suffix`). Layout is allowed after `[` and before `]` — exactly
+  where `IndexExpr::lex_with` calls `skip_space` — and nowhere else: not between the name and
+  `[`, not between `]` and `[`. No `[*]`.
+* `tail : Tail` — `isTrue` (nothing: a `Bool` left-hand side), `ord ws₁ op sym ws₂ lit`
+  (`ws₁ op ws₂ lit`, `op` any of the six ordering operators as a word `eq ne ge le gt lt` or a
+  symbol `== != >= <= > <`, `lit : Lit` an integer dec/hex/oct, quoted byte string with any escape
+  per byte, raw string `r#"…"#`, IPv4 dotted quad, IPv6 full or std `Display` form),
+  `inInts ws₁ ws₂ ws₀ items` (`ws₁ in ws₂ { ws₀ item ws … item ws }`, every item `a` or `a..b` with
+  its own integer forms and the layout after it), `contains ws₁ ws₂ lit` (`lit` quoted or raw).
+* `CAtom.boolField name`, `CAtom.cmp name ws₁ op sym ws₂ lit` (and `intCmp`, `bytesCmp`, `rawCmp`,
+  `ipCmp`, `ip6Cmp`), `CAtom.inSet`, `CAtom.containsCmp` are the atoms with EMPTY path.
+* `CAtom.txt` = name ++ suffixes ++ tail text; `CAtom.node s` = the intended node
+  `.comparison (.field i indexes) op` with `i` the index of `name` in the scheme, `indexes` the
+  `FieldIndex` values of the suffixes and `op` = `isTrue` / `ordering op value` /
+  `oneOf (int ranges)` (the ranges in the order written, `a` as `(a, a)`: nothing is merged or
+  sorted at parse time) / `contains bytes`;
 * side conditions (`CAtom.ok`, decidable; spelled out in the hypotheses below): `nameOk` — the
   name is a dotted identifier `seg(.seg)*`; it is not the word `not` itself (a name that merely
   BEGINS with `not` — `notes`, `not_b`, `not.x` — is fine: `LogicalExpr::lex_unary_op` reads a
-  registered name as that identifier; the earlier hypothesis "does not start with `not`" is
-  gone, see `Props/C16Ident.lean`); the scheme has a field
-  of exactly that name and of the literal's type; a word spelling is separated from the name
-  (`ws₁ ≠ []`: `ieq 5` is the identifier `ieq`), a symbol need not be (`i==5`); `Lit.ok` — the
-  integer is an `i64` (non-negative for hex/octal), unescaped bytes are printable ASCII, at most
-  255 hashes and no early terminator in a raw body, the address fits its family.
+  registered name as that identifier, see `Props/C16Ident.lean`); the scheme has a field of
+  exactly that name, the path is WELL-TYPED for its declared type and ENDS in the tail's type
+  (`fieldPathTy`: `Bool` for a bare atom, the literal's type, `Int` for `in {…}`, `Bytes` for
+  `contains`; by recursion on the type: `path_typing_by_type`); every suffix is well-formed
+  (`Ix.ok`: layout is layout, `k < 2^32`, unescaped key bytes printable ASCII, key bytes UTF-8);
+  the tail is (`Tail.ok`: layout is layout; `Lit.ok` — the integer is an `i64`, non-negative for
+  hex/octal, unescaped bytes printable ASCII, ≤ 255 hashes and no early terminator in a raw body,
+  the address fits its family; set items: both bounds `i64`, `a ≤ b`, every item but the last
+  followed by ≥ 1 layout character); where the tail meets a BARE name (empty path) a word
+  operator is separated from it (`ws₁ ≠ []`: `ieq 5`, `iin {1}` are identifiers; a symbol need
+  not be: `i==5`) and a bare `Bool` field is not called `any`/`all`. After `]` nothing is
+  needed (`a[0]eq 5`, `a[0]in{1}`, a field `any : Array Bool` as `any[0]`).
   Nothing is asked of the continuation beyond `Stop` (end of input, a space, `)`, with
-  `tight` also `&`, `|`, `^`): none of these extends a digit run, an address or an identifier.
+  `tight` also `&`, `|`, `^`): none of these extends a digit run, an address, an identifier or an
+  index chain.
 
 Property theorems only.
 -/
@@ -125,6 +146,177 @@ theorem goodAtom_ip6Cmp (env : PEnv) (tight : Bool) (name : List Char) (ws₁ ws
     GoodAtom env (atoms env.scheme) tight (.cmp name ws₁ op sym ws₂ (.ip6std a)) :=
   ⟨goodAtom env tight _ (CAtom.ok_cmp hname hnot hfield h₁ h₂ hsep (by simpa [Lit.ok] using ha)),
    goodAtom env tight _ (CAtom.ok_cmp hname hnot hfield h₁ h₂ hsep (by simpa [Lit.ok] using ha))⟩
+
+/-! ## 1b. Index suffixes, `in { … }`, `contains` -/
+
+/-- **path_typing_by_type**: the typing condition on index paths (`pathTy`, the fold of
+`IndexExpr::get_type`'s step) is the recursion on the declared TYPE: an array takes an array
+index, a map takes a key, a primitive type takes nothing -/
+theorem path_typing_by_type (t : Ty) (p : List FieldIndex) : pathTy t p = tyAt t p :=
+  pathTy_eq_tyAt p t
+
+/-- **plain_key_suffix**: the escape-free key suffix `[ws₁ "key" ws₂]` — printable ASCII without
+`"` and `\` — has that text, denotes `MapKey(key)` and meets its side conditions -/
+theorem plain_key_suffix (ws₁ ws₂ : Input) (key : List Char) (h₁ : Layout ws₁ = true)
+    (h₂ : Layout ws₂ = true) (hkey : key.all keyChar = true) :
+    (Ix.plainKey ws₁ key ws₂).txt = '[' :: (ws₁ ++ ('"' :: (key ++ '"' :: (ws₂ ++ [']'])))) ∧
+    (Ix.plainKey ws₁ key ws₂).val = .key key ∧ (Ix.plainKey ws₁ key ws₂).ok = true :=
+  plainKey_spec h₁ h₂ hkey
+
+/-- **index_path_parses**: `IndexExpr::lex_with` on `name` followed by a written path that is
+well-typed for the field's declared type returns the field with exactly the path's indexes and
+the type the path leads to, and stops there — before everything that does not go on with `[`
+(and, after a bare name, with a name character) -/
+theorem index_path_parses (env : PEnv) (lower : Option Level) (name : List Char) (path : List Ix)
+    (t : Ty) (more : Input)
+    (hname : nameOk name = true) (hpath : path.all Ix.ok = true)
+    (hfield : fieldPathTy env.scheme name (path.map Ix.val) t = true)
+    (hmore : expect more "[" = none) (hbare : path = [] → NameStop more = true) :
+    indexExprL env lower (name ++ (pathTxt path ++ more)) =
+      .ok ({ node := .field (fieldIx env.scheme name) (path.map Ix.val), ty := t }, more) :=
+  indexExprL_path env lower hname (fieldPathTy_spec hfield).1 hpath (fieldPathTy_spec hfield).2
+    ⟨hmore, hbare⟩
+
+/-- **index_path_illtyped_rejected** (the typing side condition is necessary): when the written
+path does NOT fit the field's declared type, `ComparisonExpr::lex_with` fails with
+`InvalidIndexAccess` whatever follows -/
+theorem index_path_illtyped_rejected (env : PEnv) (lower : Option Level) (name : List Char)
+    (i : Nat) (path : List Ix) (more : Input)
+    (hname : nameOk name = true) (hget : env.scheme.get name = some (.field i))
+    (hpath : path.all Ix.ok = true)
+    (hty : pathTy (env.scheme.fieldTy i) (path.map Ix.val) = none) :
+    ∃ e, comparisonL env lower (name ++ (pathTxt path ++ more)) = .error e ∧
+      e.kind = .invalidIndexAccess :=
+  comparisonL_illtyped env lower hname hget hpath hty
+
+/-- **goodAtom_indexedBool**: `name path` of type `Bool` as a bare atom (`flags["x"]`,
+`bits[3]`); with a non-empty path the names `any`/`all` are fine -/
+theorem goodAtom_indexedBool (env : PEnv) (tight : Bool) (name : List Char) (path : List Ix)
+    (hname : nameOk name = true) (hnot : name ≠ "not".toList)
+    (hpath : path.all Ix.ok = true)
+    (hfield : fieldPathTy env.scheme name (path.map Ix.val) .bool = true)
+    (hj : path ≠ [] ∨ (name ≠ "any".toList ∧ name ≠ "all".toList)) :
+    GoodAtom env (atoms env.scheme) tight ⟨name, path, .isTrue⟩ :=
+  goodAtom env tight _ (CAtom.ok_of hname hnot hpath rfl hfield
+    (hj.imp id fun h => ⟨rfl, fun _ => h⟩))
+
+/-- **goodAtom_indexedCmp**: `name path ws₁ op ws₂ literal` — the comparisons of section 1 on
+an indexed left-hand side. A word operator needs no layout after `]`. -/
+theorem goodAtom_indexedCmp (env : PEnv) (tight : Bool) (name : List Char) (path : List Ix)
+    (ws₁ ws₂ : Input) (op : OrdOp) (sym : Bool) (lit : Lit)
+    (hname : nameOk name = true) (hnot : name ≠ "not".toList)
+    (hpath : path.all Ix.ok = true)
+    (hfield : fieldPathTy env.scheme name (path.map Ix.val) lit.ty = true)
+    (h₁ : Layout ws₁ = true) (h₂ : Layout ws₂ = true) (hlit : lit.ok = true)
+    (hsep : path ≠ [] ∨ sym = true ∨ ws₁ ≠ []) :
+    GoodAtom env (atoms env.scheme) tight ⟨name, path, .ord ws₁ op sym ws₂ lit⟩ :=
+  goodAtom env tight _ (CAtom.ok_of hname hnot hpath (by simp [Tail.ok, h₁, h₂, hlit]) hfield
+    (hsep.imp id fun h => ⟨by
+      rcases h with h | h
+      · simp [Tail.sepFromName, h]
+      · cases ws₁ with
+        | nil => exact absurd rfl h
+        | cons _ _ => simp [Tail.sepFromName], fun ht => by cases ht⟩))
+
+/-- the first clause of `goodAtom_indexedCmp` with text and node spelled out -/
+theorem indexedCmp_parses (env : PEnv) (tight : Bool) (name : List Char) (path : List Ix)
+    (ws₁ ws₂ : Input) (op : OrdOp) (sym : Bool) (lit : Lit)
+    (hname : nameOk name = true) (hnot : name ≠ "not".toList)
+    (hpath : path.all Ix.ok = true)
+    (hfield : fieldPathTy env.scheme name (path.map Ix.val) lit.ty = true)
+    (h₁ : Layout ws₁ = true) (h₂ : Layout ws₂ = true) (hlit : lit.ok = true)
+    (hsep : path ≠ [] ∨ sym = true ∨ ws₁ ≠ [])
+    (n : Nat) (rest : Input) (hstop : Stop tight rest = true) :
+    comparisonL env (lowerOf env n)
+        (name ++ (pathTxt path ++ (ws₁ ++ ((ordAlias op sym).toList ++ (ws₂ ++ lit.txt)))) ++ rest) =
+      .ok ({ node := .comparison (.field (fieldIx env.scheme name) (path.map Ix.val))
+               (.ordering op lit.val), ty := .bool }, rest) :=
+  (goodAtom_indexedCmp env tight name path ws₁ ws₂ op sym lit hname hnot hpath hfield h₁ h₂ hlit
+    hsep).parses n rest hstop
+
+/-- **goodAtom_inSet**: `name path ws₁ in ws₂ { ws₀ item ws … item ws }` for a left-hand side of
+type `Int`; every item `a` or `a..b` (`a ≤ b`, each bound in its own radix), every item but the
+last followed by at least one layout character, optional layout after `{` and before `}` -/
+theorem goodAtom_inSet (env : PEnv) (tight : Bool) (name : List Char) (path : List Ix)
+    (ws₁ ws₂ ws₀ : Input) (items : List IntItem)
+    (hname : nameOk name = true) (hnot : name ≠ "not".toList)
+    (hpath : path.all Ix.ok = true)
+    (hfield : fieldPathTy env.scheme name (path.map Ix.val) .int = true)
+    (h₁ : Layout ws₁ = true) (h₂ : Layout ws₂ = true) (h₀ : Layout ws₀ = true)
+    (hitems : ∀ it ∈ items, it.ok = true) (hsepi : itemsSep items = true)
+    (hsep : path ≠ [] ∨ ws₁ ≠ []) :
+    GoodAtom env (atoms env.scheme) tight ⟨name, path, .inInts ws₁ ws₂ ws₀ items⟩ :=
+  goodAtom env tight _ (CAtom.ok_of hname hnot hpath
+    (by simp only [Tail.ok, h₁, h₂, h₀, hsepi, Bool.true_and, Bool.and_true, List.all_eq_true]
+        exact hitems) hfield
+    (hsep.imp id fun h => ⟨by
+      cases ws₁ with
+      | nil => exact absurd rfl h
+      | cons _ _ => simp [Tail.sepFromName], fun ht => by cases ht⟩))
+
+/-- the first clause of `goodAtom_inSet` with text and node spelled out: the node is
+`OneOf(RhsValues::Int(ranges))` with the ranges in the order written (`set_ranges_in_order`) -/
+theorem inSet_parses (env : PEnv) (tight : Bool) (name : List Char) (path : List Ix)
+    (ws₁ ws₂ ws₀ : Input) (items : List IntItem)
+    (hname : nameOk name = true) (hnot : name ≠ "not".toList)
+    (hpath : path.all Ix.ok = true)
+    (hfield : fieldPathTy env.scheme name (path.map Ix.val) .int = true)
+    (h₁ : Layout ws₁ = true) (h₂ : Layout ws₂ = true) (h₀ : Layout ws₀ = true)
+    (hitems : ∀ it ∈ items, it.ok = true) (hsepi : itemsSep items = true)
+    (hsep : path ≠ [] ∨ ws₁ ≠ [])
+    (n : Nat) (rest : Input) (hstop : Stop tight rest = true) :
+    comparisonL env (lowerOf env n)
+        (name ++ (pathTxt path ++ (ws₁ ++ ("in".toList ++
+          (ws₂ ++ ('{' :: (ws₀ ++ (itemsTxt items ++ ['}']))))))) ++ rest) =
+      .ok ({ node := .comparison (.field (fieldIx env.scheme name) (path.map Ix.val))
+               (.oneOf (.int (itemsVal items))), ty := .bool }, rest) :=
+  (goodAtom_inSet env tight name path ws₁ ws₂ ws₀ items hname hnot hpath hfield h₁ h₂ h₀ hitems
+    hsepi hsep).parses n rest hstop
+
+/-- **set_ranges_in_order**: the value of a written set, item by item — a single value `a` is
+the range `(a, a)`, `a..b` is `(a, b)`; order and duplicates are kept, nothing is merged -/
+theorem set_ranges_in_order :
+    itemsVal [] = [] ∧
+    (∀ f a ws r, itemsVal (.single f a ws :: r) = (a, a) :: itemsVal r) ∧
+    (∀ f a g b ws r, itemsVal (.range f a g b ws :: r) = (a, b) :: itemsVal r) ∧
+    (∀ r, itemsTxt [] = [] ∧
+      (∀ f a ws, itemsTxt (.single f a ws :: r) = renderInt f a ++ (ws ++ itemsTxt r)) ∧
+      (∀ f a g b ws, itemsTxt (.range f a g b ws :: r) =
+        (renderInt f a ++ ('.' :: '.' :: renderInt g b)) ++ (ws ++ itemsTxt r))) :=
+  ⟨rfl, fun _ _ _ _ => rfl, fun _ _ _ _ _ _ => rfl, fun _ => ⟨rfl, fun _ _ _ => rfl,
+    fun _ _ _ _ _ => rfl⟩⟩
+
+/-- **goodAtom_contains**: `name path ws₁ contains ws₂ literal` for a left-hand side of type
+`Bytes` and a quoted or raw literal -/
+theorem goodAtom_contains (env : PEnv) (tight : Bool) (name : List Char) (path : List Ix)
+    (ws₁ ws₂ : Input) (lit : Lit)
+    (hname : nameOk name = true) (hnot : name ≠ "not".toList)
+    (hpath : path.all Ix.ok = true)
+    (hfield : fieldPathTy env.scheme name (path.map Ix.val) .bytes = true)
+    (h₁ : Layout ws₁ = true) (h₂ : Layout ws₂ = true) (hlit : lit.ok = true)
+    (hty : lit.ty = .bytes) (hsep : path ≠ [] ∨ ws₁ ≠ []) :
+    GoodAtom env (atoms env.scheme) tight ⟨name, path, .contains ws₁ ws₂ lit⟩ :=
+  goodAtom env tight _ (CAtom.ok_of hname hnot hpath (by simp [Tail.ok, h₁, h₂, hlit, hty]) hfield
+    (hsep.imp id fun h => ⟨by
+      cases ws₁ with
+      | nil => exact absurd rfl h
+      | cons _ _ => simp [Tail.sepFromName], fun ht => by cases ht⟩))
+
+/-- the first clause of `goodAtom_contains` with text and node spelled out -/
+theorem contains_parses (env : PEnv) (tight : Bool) (name : List Char) (path : List Ix)
+    (ws₁ ws₂ : Input) (lit : Lit)
+    (hname : nameOk name = true) (hnot : name ≠ "not".toList)
+    (hpath : path.all Ix.ok = true)
+    (hfield : fieldPathTy env.scheme name (path.map Ix.val) .bytes = true)
+    (h₁ : Layout ws₁ = true) (h₂ : Layout ws₂ = true) (hlit : lit.ok = true)
+    (hty : lit.ty = .bytes) (hsep : path ≠ [] ∨ ws₁ ≠ [])
+    (n : Nat) (rest : Input) (hstop : Stop tight rest = true) :
+    comparisonL env (lowerOf env n)
+        (name ++ (pathTxt path ++ (ws₁ ++ ("contains".toList ++ (ws₂ ++ lit.txt)))) ++ rest) =
+      .ok ({ node := .comparison (.field (fieldIx env.scheme name) (path.map Ix.val))
+               (.contains lit.bytes), ty := .bool }, rest) :=
+  (goodAtom_contains env tight name path ws₁ ws₂ lit hname hnot hpath hfield h₁ h₂ hlit hty
+    hsep).parses n rest hstop
 
 /-- **all of them at once**, on the decidable side condition `CAtom.ok` -/
 theorem goodAtom_concrete (env : PEnv) (tight : Bool) (a : CAtom)
@@ -336,6 +528,133 @@ example :
       { scheme := { fields := [⟨"not".toList, .bool, false⟩], funcs := [], lists := [] }, st := {} }
     (match parseFilter env "not".toList with | .ok _ => true | .error _ => false) = false := by
   decide
+
+/-! ### index suffixes, `in { … }`, `contains`
+
+the scheme also has `tcp.ports : Array Int` (5), `http.headers : Map Bytes` (6),
+`m : Map (Array Bytes)` (7), `flags : Map Bool` (8) -/
+
+/-- the side conditions hold of `tcp.ports[0] == 80`, `tcp.ports[ 0x0⏎]eq 0x50`,
+`http.headers["host"] contains "x"`, `http.headers[ "ho\x73t" ]contains"\x78"`,
+`m["a"][0] == "v"`, `flags["x"]`, `tcp.port in {80 443 8000..8100}`,
+`tcp.port in{ 0x50 443⏎8000..8100 }` -/
+example : ∀ a ∈ [aPorts0, aPorts0Alt, aHdr, aHdrAlt, aM, aFlag, aIn, aInAlt],
+    a.ok cScheme = true := by decide
+
+/-- their texts -/
+example : (atoms cScheme).txt aPorts0 = "tcp.ports[0] == 80".toList ∧
+    (atoms cScheme).txt aPorts0Alt = "tcp.ports[ 0x0\n]eq 0x50".toList ∧
+    (atoms cScheme).txt aHdr = "http.headers[\"host\"] contains \"x\"".toList ∧
+    (atoms cScheme).txt aHdrAlt = "http.headers[ \"ho\\x73t\" ]contains\"\\x78\"".toList ∧
+    (atoms cScheme).txt aM = "m[\"a\"][0] == \"v\"".toList ∧
+    (atoms cScheme).txt aFlag = "flags[\"x\"]".toList ∧
+    (atoms cScheme).txt aIn = "tcp.port in {80 443 8000..8100}".toList ∧
+    (atoms cScheme).txt aInAlt = "tcp.port in{ 0x50 443\n8000..8100 }".toList :=
+  ⟨txt_aPorts0, txt_aPorts0Alt, txt_aHdr, txt_aHdrAlt, txt_aM, txt_aFlag, txt_aIn, txt_aInAlt⟩
+
+/-- their nodes: field by index, the `FieldIndex` values of the suffixes, the operator; a set is
+the list of its ranges in the order written -/
+example : (atoms cScheme).node aM =
+      .comparison (.field 7 [.key "a".toList, .arr 0])
+        (.ordering .eq (.bytes { fmt := .quoted, data := [118] })) ∧
+    (atoms cScheme).node aFlag = .comparison (.field 8 [.key "x".toList]) .isTrue ∧
+    (atoms cScheme).node aInAlt =
+      .comparison (.field 2 []) (.oneOf (.int [(80, 80), (443, 443), (8000, 8100)])) ∧
+    (atoms cScheme).node aHdrAlt =
+      .comparison (.field 6 [.key "host".toList]) (.contains { fmt := .quoted, data := [120] }) :=
+  ⟨rfl, rfl, rfl, rfl⟩
+
+/-- **the worked example**: two spellings of
+`tcp.port in {80 443 8000..8100} and http.headers["host"] contains "x" or m["a"][0] == "v"`
+(the second with `in{`, a hexadecimal item, a newline inside the braces, layout inside the
+brackets, an escaped key and needle, symbolic `&&`/`||` without spaces) parse to the same AST
+`or[ and[ tcp.port in {…}, http.headers["host"] contains "x" ], m["a"][0] == "v" ]` -/
+example : parseFilter cEnv cText₇ = .ok (canon (atoms cScheme) cSk₇) ∧
+    parseFilter cEnv cText₈ = .ok (canon (atoms cScheme) cSk₈) ∧
+    canon (atoms cScheme) cSk₇ = cAst₇ ∧ canon (atoms cScheme) cSk₈ = cAst₇ :=
+  ⟨parse_render_concrete cEnv true cSk₇ (by decide) _ cRenders₇ (by decide) (by decide),
+   parse_render_concrete cEnv true cSk₈ (by decide) _ cRenders₈ (by decide) (by decide),
+   rfl, rfl⟩
+
+/-- `tcp.ports[0] == 80 and not flags["x"]` = `tcp.ports[ 0x0⏎]eq 0x50&&!flags["x"]` -/
+example : parseFilter cEnv cText₉ = .ok (canon (atoms cScheme) cSk₉) ∧
+    parseFilter cEnv cText₁₀ = .ok (canon (atoms cScheme) cSk₁₀) ∧
+    canon (atoms cScheme) cSk₉ = cAst₉ ∧ canon (atoms cScheme) cSk₁₀ = cAst₉ :=
+  ⟨parse_render_concrete cEnv true cSk₉ (by decide) _ cRenders₉ (by decide) (by decide),
+   parse_render_concrete cEnv true cSk₁₀ (by decide) _ cRenders₁₀ (by decide) (by decide),
+   rfl, rfl⟩
+
+/-- … by the invariance theorem also JSON and hash agree: the cores are equal (same indexes,
+same key, same ranges, same needle) -/
+example : parseFilter cEnv cText₇ = parseFilter cEnv cText₈ :=
+  alias_layout_same_outcome_concrete cEnv true true cSk₇ cSk₈ (by decide) (by decide)
+    rfl _ _ cRenders₇ cRenders₈ (by decide) (by decide) (by decide)
+
+/-- the typing side condition is sharp: a key on an array, an index on a map, a second index on
+`Array Int`, a comparison of the intermediate `Array Bytes` are all rejected … -/
+example : ∀ t ∈ ["tcp.ports[\"a\"] == 1", "http.headers[0] == \"x\"", "tcp.ports[0][0] == 1",
+      "m[\"a\"] == \"v\"", "m[0][\"a\"] == \"v\""],
+    (match parseFilter cEnv t.toList with | .ok _ => true | .error _ => false) = false := by
+  decide
+
+/-- … by the general theorem: `tcp.ports["a"]` is ill-typed, so `ComparisonExpr::lex_with` fails
+with `InvalidIndexAccess` whatever follows -/
+example (more : Input) : ∃ e, comparisonL cEnv none
+      ("tcp.ports".toList ++ (pathTxt [.plainKey [] "a".toList []] ++ more)) = .error e ∧
+    e.kind = .invalidIndexAccess :=
+  index_path_illtyped_rejected cEnv none _ 5 _ more (by decide) (by decide) (by decide)
+    (by decide)
+
+/-- layout is allowed INSIDE the brackets only: not between the name and `[`, not between `]`
+and `[`; the index is a `u32` -/
+example : ∀ t ∈ ["tcp.ports [0] == 1", "m[\"a\"] [0] == \"v\"", "tcp.ports[4294967296] == 1",
+      "tcp.ports[-1] == 1"],
+    (match parseFilter cEnv t.toList with | .ok _ => true | .error _ => false) = false := by
+  decide
+
+/-- a word operator must be separated from a bare NAME (`iin {1}`, `http.hostcontains "a"` are
+identifiers) — not from `]` and not from what follows it -/
+example : (∀ t ∈ ["iin {1}", "http.hostcontains \"a\""],
+      (match parseFilter cEnv t.toList with | .ok _ => true | .error _ => false) = false) ∧
+    parseFilter cEnv "tcp.ports[0]in{1}".toList =
+      .ok (.comparison (.field 5 [.arr 0]) (.oneOf (.int [(1, 1)]))) ∧
+    parseFilter cEnv "http.headers[\"a\"]contains\"x\"".toList =
+      .ok (.comparison (.field 6 [.key "a".toList])
+        (.contains { fmt := .quoted, data := [120] })) :=
+  ⟨by decide, rfl, rfl⟩
+
+/-- set items must be separated (`{1 2}` is two values, `{12}` one), a range needs `a ≤ b`,
+and layout is not allowed around `..` -/
+example : parseFilter cEnv "i in {1 2}".toList =
+      .ok (.comparison (.field 0 []) (.oneOf (.int [(1, 1), (2, 2)]))) ∧
+    parseFilter cEnv "i in {12}".toList =
+      .ok (.comparison (.field 0 []) (.oneOf (.int [(12, 12)]))) ∧
+    (∀ t ∈ ["i in {3..1}", "i in {1 ..2}", "i in {1.. 2}", "i in {1,2}"],
+      (match parseFilter cEnv t.toList with | .ok _ => true | .error _ => false) = false) :=
+  ⟨rfl, rfl, by decide⟩
+
+/-- nothing is merged or sorted at parse time: overlapping, duplicate and descending items stay
+as written; the empty set is a set -/
+example : parseFilter cEnv "i in {5..9 7 7 1..6}".toList =
+      .ok (.comparison (.field 0 []) (.oneOf (.int [(5, 9), (7, 7), (7, 7), (1, 6)]))) ∧
+    parseFilter cEnv "i in {}".toList = .ok (.comparison (.field 0 []) (.oneOf (.int []))) :=
+  ⟨rfl, rfl⟩
+
+/-- the element type must fit the operator: `contains` on an `Int`, `in {ints}` on `Bytes` -/
+example : ∀ t ∈ ["i contains \"a\"", "http.host in {1}", "tcp.ports[0] contains \"a\""],
+    (match parseFilter cEnv t.toList with | .ok _ => true | .error _ => false) = false := by
+  decide
+
+/-- with an index suffix a field may be called `any` (`any[0]` is no quantifier call); the bare
+name cannot stand alone before ` (` — and `any [0]` is not an index expression -/
+example :
+    let env : PEnv :=
+      { scheme := { fields := [⟨"any".toList, .array .bool, false⟩], funcs := [], lists := [] },
+        st := {} }
+    GoodAtom env (atoms env.scheme) true ⟨"any".toList, [.arr [] 0 []], .isTrue⟩ ∧
+    (match parseFilter env "any [0]".toList with | .ok _ => true | .error _ => false) = false :=
+  ⟨goodAtom_indexedBool _ true _ _ (by decide) (by decide) (by decide) (by decide)
+    (.inl (by decide)), by decide⟩
 
 end Examples
 
